@@ -3,6 +3,7 @@
 #![feature(abi_x86_interrupt)]
 #![allow(clippy::all)]
 
+pub mod deliver;
 pub mod engine;
 pub mod gen;
 pub mod known;
